@@ -1,7 +1,7 @@
 (* Engine 1: scripts of world operations over two worlds; decoder, interpreter and observation
    encoders.  The Rust harness (harness/src/world_engine.rs) implements the same protocol. *)
 From Coq Require Import List NArith ZArith Bool.
-From HecsV Require Import Base.ListN Model.EntityBits Model.Types Model.Entities Model.World Model.Query Model.Containers Model.Guards Model.Serde.
+From HecsV Require Import Base.ListN Model.EntityBits Model.Types Model.Entities Model.World Model.Query Model.Containers Model.Guards Model.Serde Model.Layout.
 Import ListNotations.
 Open Scope N_scope.
 
@@ -21,7 +21,7 @@ Definition conts_new : conts :=
      k_batch := repeat None 4; k_cmd := repeat cmdbuf_new 2; k_next := 1073741824; k_spawns := [0; 0] |}.
 
 Record est := { e_u : universe; e_ws : list wslot; e_handles : list entity; e_prep : list (N * prepared); e_k : conts;
-                e_guards : list guard; e_cells : list cells }.
+                e_guards : list guard; e_cells : list cells; e_caps : list (list N) }.
 
 (* table entry recorded when an operation that should have produced a handle failed *)
 Definition NOHANDLE : entity := {| e_id := 200; e_gen := 4294967295 |}.
@@ -97,7 +97,7 @@ Definition dec_rows (types : list tid) (n : N) (l : list N) : list (list (tid * 
     | S f => if N.eqb n 0 then ([], l) else
              let '(rs, tl) := go f (N.pred n) (dropN k l) in
              (combine types (takeN k l) :: rs, tl)
-    end in go (S (length l)) n l.
+    end in go (S (length l) + N.to_nat (N.min n 100000))%nat n l.
 
 Definition dec_hrefs (st : est) (n : N) (l : list N) : list entity * list N :=
   let fix go (fuel : nat) (n : N) (l : list N) :=
@@ -197,7 +197,7 @@ Definition run_query (st : est) (wi : N) (w : world) (qidx path arg : N) (q : qu
          (st, lenN bs :: concat (map (enc_entries u) bs))
   | 4 | 5 | 6 =>
       let p := pq_refresh (assoc_prep qidx (e_prep st)) (wi + 1) w q in
-      let st' := {| e_u := e_u st; e_ws := e_ws st; e_handles := e_handles st; e_prep := (qidx, p) :: e_prep st; e_k := e_k st; e_guards := e_guards st; e_cells := e_cells st |} in
+      let st' := {| e_u := e_u st; e_ws := e_ws st; e_handles := e_handles st; e_prep := (qidx, p) :: e_prep st; e_k := e_k st; e_guards := e_guards st; e_cells := e_cells st; e_caps := e_caps st |} in
       if N.eqb path 6 then (st', concat (map (fun h => enc_opt_item u (pq_view_get p w q h)) hs))
       else (st', pq_len p w :: enc_entries u (pq_iter p w q))
   | 7 => (st, concat (map (fun h => match query_one w q h with
@@ -215,10 +215,10 @@ Definition get_w (st : est) (i : N) : option world :=
   end.
 
 Definition set_w (st : est) (i : N) (w : world) (state : N) : est :=
-  {| e_u := e_u st; e_ws := updN (e_ws st) i {| ws_world := w; ws_state := state |}; e_handles := e_handles st; e_prep := e_prep st; e_k := e_k st; e_guards := e_guards st; e_cells := e_cells st |}.
+  {| e_u := e_u st; e_ws := updN (e_ws st) i {| ws_world := w; ws_state := state |}; e_handles := e_handles st; e_prep := e_prep st; e_k := e_k st; e_guards := e_guards st; e_cells := e_cells st; e_caps := e_caps st |}.
 
 Definition add_handles (st : est) (hs : list entity) : est :=
-  {| e_u := e_u st; e_ws := e_ws st; e_handles := e_handles st ++ hs; e_prep := e_prep st; e_k := e_k st; e_guards := e_guards st; e_cells := e_cells st |}.
+  {| e_u := e_u st; e_ws := e_ws st; e_handles := e_handles st ++ hs; e_prep := e_prep st; e_k := e_k st; e_guards := e_guards st; e_cells := e_cells st; e_caps := e_caps st |}.
 
 Definition out_ok (u : universe) (ret : list N) (dropped : list (tid * val)) : list N :=
   [0; lenN ret] ++ ret ++ enc_vals u dropped.
@@ -231,7 +231,7 @@ Definition vals_flat (l : list (tid * val)) : list N := concat (map (fun p => [s
 
 (* ---- containers (opcodes 50..86) ---- *)
 Definition set_k (st : est) (k : conts) : est :=
-  {| e_u := e_u st; e_ws := e_ws st; e_handles := e_handles st; e_prep := e_prep st; e_k := k; e_guards := e_guards st; e_cells := e_cells st |}.
+  {| e_u := e_u st; e_ws := e_ws st; e_handles := e_handles st; e_prep := e_prep st; e_k := k; e_guards := e_guards st; e_cells := e_cells st; e_caps := e_caps st |}.
 Definition k_with_eb (k : conts) (l : list common) : conts :=
   {| k_eb := l; k_ebc := k_ebc k; k_built := k_built k; k_batch := k_batch k; k_cmd := k_cmd k; k_next := k_next k; k_spawns := k_spawns k |}.
 Definition k_with_ebc (k : conts) (l : list common) : conts :=
@@ -461,7 +461,7 @@ Definition conts_drop_all (k : conts) : list (tid * val) :=
 (* ---- borrow guards (opcodes 100..115) ---- *)
 Definition set_g (st : est) (gs : list guard) (cs : list cells) : est :=
   {| e_u := e_u st; e_ws := e_ws st; e_handles := e_handles st; e_prep := e_prep st; e_k := e_k st;
-     e_guards := gs; e_cells := cs |}.
+     e_guards := gs; e_cells := cs; e_caps := e_caps st |}.
 Definition cells_of (st : est) (w : N) : cells := match nthN (e_cells st) w with Some c => c | None => [] end.
 Definition archs_of (st : est) (w : N) : list arch :=
   match nthN (e_ws st) w with Some s => w_archs (ws_world s) | None => [] end.
@@ -766,11 +766,95 @@ Definition run_serde (st : est) (w : world) (fmt reader : N) (q : query) (nmut :
       end in
   ((if lengths_ok tree then 1 else 0) :: lenN enc :: enc ++ res, rest).
 
+(* ---- archetype capacities (opcode 23): a shadow of Archetype::capacity() maintained from the
+   lengths before and after each operation (Model/Layout.v).  Exact for operations that grow an
+   archetype by consecutive allocate() calls, reserve it, or merge / install a column batch. ---- *)
+Definition set_caps (st : est) (c : list (list N)) : est :=
+  {| e_u := e_u st; e_ws := e_ws st; e_handles := e_handles st; e_prep := e_prep st; e_k := e_k st;
+     e_guards := e_guards st; e_cells := e_cells st; e_caps := c |}.
+
+Definition arch_index_of (w : world) (types : list tid) : option N := assoc_list types (w_index w).
+
+(* capacities after an operation on one world *)
+Definition caps_after (u : universe) (opc : N) (reserve_idx : option N) (reserve_n : N) (batch_new : bool)
+           (old_w new_w : world) (old_caps : list N) : list N :=
+  let old_n := lenN (w_archs old_w) in
+  map (fun ia =>
+         let '(i, a) := ia in
+         let new_len := lenN (a_rows a) in
+         if N.ltb i old_n then
+           let old_len := match nthN (w_archs old_w) i with Some oa => lenN (a_rows oa) | None => 0 end in
+           let cap := match nthN old_caps i with Some c => c | None => 0 end in
+           let is_target := match reserve_idx with Some j => N.eqb i j | None => false end in
+           if is_target then
+             if N.eqb opc 15 || N.eqb opc 16 then
+               (* merge: reserve(other.len); rows are copied in *)
+               cap_reserve cap (if N.eqb opc 16 then new_len - reserve_n else old_len) reserve_n
+             else
+               (* reserve::<T>(n) / spawn_batch: reserve then consecutive allocate() calls *)
+               let c1 := cap_reserve cap old_len reserve_n in
+               cap_push_many c1 old_len (new_len - old_len)
+           else cap_push_many cap old_len (new_len - old_len)
+         else
+           (* an archetype created by this operation *)
+           let is_target := match reserve_idx with Some j => N.eqb i j | None => false end in
+           if is_target && batch_new then cap_batch reserve_n
+           else if is_target then cap_push_many (cap_reserve 0 0 reserve_n) 0 new_len
+           else cap_push_many 0 0 new_len)
+      (combine (seqN 0 (lenN (w_archs new_w))) (w_archs new_w)).
+
+(* which archetype an operation reserves / installs a batch into, and by how much *)
+Definition caps_hint (u : universe) (opc : N) (args : list N) (new_w : world) : option N * N :=
+  match opc with
+  | 13 => let '(ts, r) := dec_types args in
+          (arch_index_of new_w (tsort u ts), match r with n :: _ => n | [] => 0 end)
+  | 14 | 15 | 16 => let '(ts, r) := dec_types args in
+                    (arch_index_of new_w (if N.eqb opc 14 then tsort u ts else dedup_sorted (tsort u ts)),
+                     match r with n :: _ => n | [] => 0 end)
+  | _ => (None, 0)
+  end.
+
+Definition caps_post (st st' : est) (opc : N) (l : list N) : est :=
+  match l with
+  | wi :: args =>
+      if (N.leb 1 opc && N.leb opc 16) || N.eqb opc 53 || N.eqb opc 54 || N.eqb opc 64 then
+        let u := e_u st in
+        let upd (st'' : est) (w : N) :=
+          match nthN (e_ws st) w, nthN (e_ws st') w with
+          | Some so, Some sn =>
+              let '(ri, rn) := if N.eqb w wi then caps_hint u opc args (ws_world sn) else (None, 0) in
+              let batch_new := match ri with
+                               | Some j => N.leb (lenN (w_archs (ws_world so))) j && (N.eqb opc 15 || N.eqb opc 16)
+                               | None => false end in
+              let old_caps := match nthN (e_caps st'') w with Some c => c | None => [] end in
+              (* structural operations flush first: the reserved entities are pushed to archetype 0
+                 before anything is removed *)
+              let '(mid_w, mid_caps) :=
+                match w_flush (ws_world so) with
+                | Done wf => if N.eqb opc 10 || N.eqb opc 11 || needs_flush (w_ents (ws_world sn)) then (ws_world so, old_caps)
+                             else (wf, caps_after u 0 None 0 false (ws_world so) wf old_caps)
+                | Panic _ => (ws_world so, old_caps)
+                end in
+              set_caps st'' (updN (e_caps st'') w (caps_after u opc ri rn batch_new mid_w (ws_world sn) mid_caps))
+          | _, _ => st''
+          end in
+        (* container spawns carry the world index in another position; take_into touches both worlds *)
+        let target := if N.eqb opc 53 || N.eqb opc 54 || N.eqb opc 64 then match args with x :: _ => x | [] => 0 end else wi in
+        if N.eqb opc 8 then upd (upd st' 0) 1 else upd st' target
+      else st'
+  | [] => st'
+  end.
+
 (* one operation; returns the new state, the rest of the script and the observation *)
 Definition exec_op (st : est) (opc : N) (l : list N) : est * list N * list N :=
   let u := e_u st in
   if N.leb 50 opc && N.leb opc 86 then exec_cont st opc l else
   if N.leb 100 opc && N.leb opc 115 then exec_guard st opc l else
+  if N.eqb opc 23 then
+    (st, l, concat (map (fun wi => match get_w st wi with
+                                   | None => [7]
+                                   | Some w => 5 :: lenN (w_archs w) :: (match nthN (e_caps st) wi with Some c => c | None => [] end)
+                                   end) [0; 1])) else
   if N.eqb opc 22 then
     (* drop every container *)
     (set_k st conts_new, l, out_ok u [] (conts_drop_all (e_k st))) else
@@ -1006,7 +1090,7 @@ Fixpoint exec_script (fuel : nat) (st : est) (l : list N) : list N :=
       | [] => []
       | opc :: r =>
           let '(st', rest, obs) := exec_op st opc r in
-          (lenN obs :: obs) ++ exec_script f st' rest
+          (lenN obs :: obs) ++ exec_script f (caps_post st st' opc r) rest
       end
   end.
 
@@ -1026,7 +1110,7 @@ Definition run_world (args : list N) : list N :=
   | n :: r =>
       let '(u, script) := dec_universe (length r) n r in
       let st := {| e_u := u; e_ws := [{| ws_world := world_new; ws_state := 0 |}; {| ws_world := world_new; ws_state := 0 |}];
-                   e_handles := []; e_prep := []; e_k := conts_new; e_guards := []; e_cells := [[]; []] |} in
+                   e_handles := []; e_prep := []; e_k := conts_new; e_guards := []; e_cells := [[]; []]; e_caps := [[0]; [0]] |} in
       exec_script (length script) st script
   | [] => []
   end.
@@ -1040,7 +1124,7 @@ Definition run_twin (args : list N) : list N :=
       match rest with
       | la :: scripts =>
           let st := {| e_u := u; e_ws := [{| ws_world := world_new; ws_state := 0 |}; {| ws_world := world_new; ws_state := 0 |}];
-                       e_handles := []; e_prep := []; e_k := conts_new; e_guards := []; e_cells := [[]; []] |} in
+                       e_handles := []; e_prep := []; e_k := conts_new; e_guards := []; e_cells := [[]; []]; e_caps := [[0]; [0]] |} in
           let a := takeN la scripts in
           let b := dropN la scripts in
           exec_script (length a) st a ++ exec_script (length b) st b
